@@ -9,7 +9,7 @@ from . import gen, solverlib
 
 def jobs_for(tier, rng):
     vi, pi = [], []
-    n = 30 if tier == "quick" else 240
+    n = 30 if tier == "quick" else 480
     for k in range(n):
         # small gadgets keep the rational certificates inside 32 bits
         PD = rng.choice([1, 2, 2])
